@@ -3,6 +3,7 @@
     that refutes handler-entry order. *)
 From SioV Require Import Base.Conc Sio.Pipeline Sio.PipelineProofs Sio.PipelineCheck.
 From SioV Require Import Eio.Batcher Eio.BatcherProofs.
+From SioV Require Import Sio.PipelineConn Sio.PipelineConnProofs.
 
 (** *** engine.io/client_socket.go:writeWritablePackets as the splitter of the polling client *)
 Definition to_eio (f : frame bytes) : packet := mkPacket (f_bin f) 4 (f_data f).
@@ -47,6 +48,30 @@ Proof.
   exists WS, witness_progs, witness_sched. split.
   - repeat constructor.
   - rewrite witness_entered. intros (rem & order & H).
+    destruct order as [|i o]; simpl in H; [discriminate|].
+    destruct i as [|i]; simpl in H.
+    + destruct (pops [[mkSP 2 []]] o) as [[r l]|]; [|discriminate]. inversion H.
+    + destruct i; discriminate.
+Qed.
+
+(** *** Per-emitter order across the connect instant is not guaranteed either: the event emitted
+    between `state = Connected` and the flush overtakes the goroutine's own parked event. *)
+Definition window_sched : list caction := [CEmit 0; CConnected; CEmit 0; CFlush].
+
+Lemma window_log :
+  map snd (c_all (crun (fun _ : nat => Some 0) 0 (fun b => [b]) WS window_sched witness_progs))
+  = [mkSP 2 []; mkSP 1 []].
+Proof. vm_compute. reflexivity. Qed.
+
+Lemma C02_connect_window_refuted_witness :
+  exists (tr : transport) (progs : list (list (spacket nat))) (sched : list caction),
+    Forall (Forall (wf_packet (fun _ => Some 0) 0)) progs /\
+    ~ exists rem, interleaving progs
+                    (map snd (c_all (crun (fun _ => Some 0) 0 (fun b => [b]) tr sched progs))) rem.
+Proof.
+  exists WS, witness_progs, window_sched. split.
+  - repeat constructor.
+  - rewrite window_log. intros (rem & order & H).
     destruct order as [|i o]; simpl in H; [discriminate|].
     destruct i as [|i]; simpl in H.
     + destruct (pops [[mkSP 2 []]] o) as [[r l]|]; [|discriminate]. inversion H.
